@@ -193,7 +193,7 @@ pub fn run(ctx: &Ctx) {
         "limit",
     );
 
-    let n = ctx.tier.pick(300_000u64, 6_000_000u64);
+    let n = ctx.tier.pick(1_500_000u64, 15_000_000u64);
     ctx.random(
         "random-values",
         n,
